@@ -271,6 +271,30 @@ func c19AllOfNoneOf(r *core.Report) {
 				}
 			}
 		}
+		// shape (c): the whole list is handed to a quantifier helper ("mentions one of" / "mentions all of"); with the helper's
+		// answer fixed to the outcome that must reject, every way on in the predicate ends in a return of false
+		if !good {
+			for _, nd := range stmtNodes(g) {
+				as, ok := nd.Ast.(*ast.AssignStmt)
+				if !ok {
+					continue
+				}
+				kind, ans, at := quantifierCall(p, pred, g, as, lo)
+				if kind == "" || ans == nil || at == nil {
+					continue
+				}
+				// exclude: "one of them is present" must reject; required: "not all of them are present" must reject
+				if (want && kind != "any") || (!want && kind != "all") {
+					why = "the " + field + " list is handed to a helper that answers \"" + kind + " of the accounts are present\": the wrong quantifier for this list"
+					continue
+				}
+				if forcedRun(g, pred, at, ans, want, nil, rejectingReturn(info)) {
+					good = true
+				} else {
+					why = "the answer of the " + field + " helper does not reject on the right outcome"
+				}
+			}
+		}
 		r.Check(good, rule, pred.Key+"#"+field+"-"+map[bool]string{true: "none-of", false: "all-of"}[want], posP(r, pred.Pos()), field+" is decided per listed account (or per distinct account against the size of the probed set)",
 			why)
 	}
